@@ -3,7 +3,7 @@
  "name": "get_free_blocks2_wrap",
  "props": ["C07"],
  "level": "U/iter",
- "tier": "wip",
+ "tier": "quick",
  "harness": "h_get_free_blocks2_wrap",
  "loop_contracts": true,
  "unwind": 8,
